@@ -65,6 +65,10 @@ def run(tier):
     nul = [("nz0", 'fn main() -> u8\n{\n\tprint!("a\\0b|\\n");\n\treturn: 0\n}\n', b"a\x00b|\n"),
            ("nz1", 'fn main() -> u8\n{\n\tvar x: i32 = 7;\n\tprint!("a\\0b|", x, "\\n");\n\treturn: 0\n}\n', b"a\x00b|7\n"),
            ("nz2", 'fn main() -> u8\n{\n\tvar x: i32 = 7;\n\tprint!("100%% of ", x, "%d%s\\n");\n\treturn: 0\n}\n', b"100%% of 7%d%s\n")]
+    # text outside ASCII is written as its UTF-8 bytes; a structure passed by view is seen in place (not copied)
+    nul += [("nz3", 'fn main() -> u8\n{\n\tvar word: []char8 = "na\u00efve";\n\tprint!("price: 5 \u20ac ", |word|, "\\n");\n\treturn: 0\n}\n', "price: 5 \u20ac 6\n".encode("utf-8")),
+            ("nz4", 'struct A\n{\n\tbal: i32,\n\tlog: [2]i32,\n}\nfn dep(p: &A, v: A, n: i32) -> i32\n{\n\tp.bal = p.bal + n;\n\tp.log[1] = n;\n\treturn: v.bal + v.log[1]\n}\nfn main() -> u8\n{\n\tvar a = A { bal: 1, log: [0, 0] };\n\tvar r: i32 = dep(&a, a, 100);\n\tprint!(r, " ", a.bal, "\\n");\n\treturn: 0\n}\n', b"201 101\n"),
+            ("nz5", 'fn bump(p: &[]i32, v: []i32) -> i32\n{\n\tp[0] = p[0] + 5;\n\treturn: v[0]\n}\nfn main() -> u8\n{\n\tvar a: [2]i32 = [1, 2];\n\tvar r: i32 = bump(&a, a);\n\tprint!(r, " ", a[0], "\\n");\n\treturn: 0\n}\n', b"6 6\n")]
     nimpl = C.run_harness("exec", [(a, b) for a, b, _ in nul], ck.work + "/nul", timeout=300)
     for cid, src, want in nul:
         f = nimpl.get(cid, ["missing"])
